@@ -101,8 +101,9 @@ func decodeWithContext(
 		// things differently. Again, use the opaque type.
 		return nil
 	}
-	// Convert the k/v pairs.
-	var b *logtags.Buffer
+	// Convert the k/v pairs. Start from an empty buffer: the result
+	// must not be nil even if only redacted tags were received.
+	b := &logtags.Buffer{}
 	for _, t := range m.Tags {
 		b = b.Add(t.Tag, t.Value)
 	}
